@@ -232,7 +232,18 @@ def corner_envs():
               MsgDesc(1, [F(1, 'NONE', 'MESSAGE', 'C0', 0, 1, 1), F(2, 'NONE', 'MESSAGE', 'C0', 0, 1, 0),
                           F(3, 'NONE', 'SINT64', 'C0', 0, 1, None), F(4, 'NONE', 'INT64', 'N', 0, 0, None),
                           F(5, 'NONE', 'BYTES', 'N', 0, 0, None), F(6, 'REP', 'DOUBLE', 'K', 1, 0, None)], 1, 0)])
-    return [e1, e2, e3, e4, e5]
+    # required sub-messages inside messages that can be split over occurrences: every fragment carries the required member,
+    # the fragments of the required member are merged (required sub-message two levels deep, with a oneof and a repeated field)
+    e6 = Env([MsgDesc(0, [F(1, 'OPT', 'MESSAGE', 'N', 0, 0, 1), F(2, 'REP', 'MESSAGE', 'K', 0, 0, 1), F(3, 'REQ', 'MESSAGE', 'N', 0, 0, 2)], 0, 1),
+              MsgDesc(1, [F(1, 'REQ', 'MESSAGE', 'N', 0, 0, 2), F(2, 'OPT', 'INT32', 'H', 0, 0, None),
+                          F(3, 'REP', 'STRING', 'K', 0, 0, None), F(4, 'OPT', 'MESSAGE', 'C0', 0, 1, 3),
+                          F(5, 'OPT', 'SINT32', 'C0', 0, 1, None)], 1, 0),
+              MsgDesc(2, [F(1, 'OPT', 'INT32', 'H', 0, 0, None), F(2, 'OPT', 'INT64', 'H', 0, 0, None),
+                          F(3, 'REP', 'UINT32', 'K', 1, 0, None), F(4, 'REQ', 'MESSAGE', 'N', 0, 0, 3),
+                          F(5, 'OPT', 'STRING', 'N', 0, 0, None, ('S', [100]))], 0, 1),
+              MsgDesc(3, [F(1, 'OPT', 'BYTES', 'H', 0, 0, None), F(2, 'REP', 'SFIXED32', 'K', 0, 0, None),
+                          F(3, 'OPT', 'BOOL', 'H', 0, 0, None)], 0, 0)])
+    return [e1, e2, e3, e4, e5, e6]
 
 
 # ---------------------------------------------------------------- messages
@@ -558,20 +569,8 @@ def field_records(env, desc, f, slot_or_cell, o):
     if f.type == 'MESSAGE' and o.split and c[1] is not None and rnd.random() < 0.5 and \
             (o.split_ok is None or o.split_ok(env.msgs[f.sub])):
         # split the sub-message's records over two or three occurrences
-        subrecs = msg_records(env, c[1], o)
         k = rnd.randint(2, 3)
-        parts = [[] for _ in range(k)]
-        for fid, r in subrecs:
-            parts[rnd.randrange(k)].append(r)
-        # keep relative order of records with the same field id: assign by non-decreasing part index per id
-        last = {}
-        parts = [[] for _ in range(k)]
-        for fid, r in subrecs:
-            cl = 'unk' if fid < 0 else fid       # unknown fields keep their mutual order (it is part of the value)
-            lo = last.get(cl, 0)
-            pi = rnd.randint(lo, k - 1)
-            last[cl] = pi
-            parts[pi].append(r)
+        parts = split_parts(env, c[1], o, k)
         for p in parts:
             body = [b for r in p for b in r]
             recs.append(key(f.id, 2, kp()) + lenpref(len(body)) + body)
@@ -582,6 +581,50 @@ def field_records(env, desc, f, slot_or_cell, o):
         recs.append(key(f.id, WT[f.type], kp()) + cell_payload(env, f, stale, o))
     recs.append(key(f.id, WT[f.type], kp()) + cell_payload(env, f, c, o))
     return recs
+
+
+def split_parts(env, m, o, k):
+    """k record lists whose concatenation, in order, encodes m: records with the same field number (and the unknown fields
+    among themselves) keep their relative order; a REQUIRED sub-message is carried by EVERY part, its own records split
+    the same way (each occurrence of the embedded message is parsed on its own and must be complete)"""
+    rnd = o.rnd
+    desc = env.msgs[m.d]
+    parts = [[] for _ in range(k)]
+    last = {}
+    req_msg = dict((f.id, (f, s)) for f, s in zip(desc.fields, m.slots)
+                   if f.label == 'REQ' and f.type == 'MESSAGE' and f.group() is None)
+    handled = set()
+    for fid, r in msg_records(env, m, o):
+        if fid in handled:
+            continue                         # further fragments of a required sub-message already re-split below
+        if fid in req_msg:
+            f, s = req_msg.pop(fid)
+            sub = s[2][1]
+            if sub is not None:
+                handled.add(fid)
+                subparts = split_parts(env, sub, o, k)
+                for i in range(k):
+                    body = [b for rr in subparts[i] for b in rr]
+                    parts[i].append(key(f.id, 2) + lenpref(len(body)) + body)
+                continue
+        cl = 'unk' if fid < 0 else fid       # unknown fields keep their mutual order (it is part of the value)
+        lo = last.get(cl, 0)
+        pi = rnd.randint(lo, k - 1)
+        last[cl] = pi
+        parts[pi].append(r)
+    return parts
+
+
+def splittable(env, desc, depth=0):
+    """may an embedded message of this type be split over several occurrences: every fragment must be complete, so the
+    only required fields allowed are sub-messages that are themselves splittable (they are carried by every fragment)"""
+    for f in desc.fields:
+        if f.label == 'REQ':
+            if f.type != 'MESSAGE' or f.group() is not None or depth > 4:
+                return False
+            if not splittable(env, env.msgs[f.sub], depth + 1):
+                return False
+    return True
 
 
 def present(f, slot):
